@@ -982,6 +982,26 @@ async fn run_nft_history(spec: &HSpec, emit: &mut dyn FnMut(&str, &str)) {
         }
         // what this block did with bound slips
         let due = live.as_ref().map(|(at, _)| at + gp + 1 == n).unwrap_or(false);
+        if due {
+            // the cut of the source transaction's outputs into single outputs and triples, against `Saito.AtrScan.scan`:
+            // the transaction of the block leaving the window that holds the live triple; every output of it is still unspent
+            // (nothing in this history spends), zero-amount plain outputs are collected but never rebroadcast
+            let (at, tr) = live.as_ref().unwrap();
+            let src_block = &chain[(*at - 1) as usize];
+            if let Some(src) = src_block.transactions.iter().find(|t| t.to.iter().any(|sl| ident(sl) == ident(&tr[0]))) {
+                let outs: Vec<&Slip> = src.to.iter().filter(|sl| sl.amount > 0 || sl.slip_type == SlipType::Bound).collect();
+                let types: Vec<String> = outs.iter().map(|sl| (sl.slip_type as u8).to_string()).collect();
+                let mut seen: Vec<(usize, char)> = vec![];
+                for t in atr_txs(&b) {
+                    if let Some(pos) = outs.iter().position(|sl| ident(sl) == ident(&t.from[0])) {
+                        seen.push((pos, if t.from.len() == 3 { 'T' } else { 'S' }));
+                    }
+                }
+                seen.sort();
+                em.e("O", &format!("scan {}", if types.is_empty() { "-".to_string() } else { types.join(",") }));
+                em.e("I", &format!("groups={}", seen.iter().map(|x| x.1).collect::<String>()));
+            }
+        }
         let mut groups = 0;
         for t in atr_txs(&b) {
             let any_bound = t.from.iter().chain(t.to.iter()).any(|sl| sl.slip_type == SlipType::Bound);
